@@ -222,7 +222,7 @@ func cliC07(scratch string, part *h.Partial) map[string]any {
 		if len(args) == 0 {
 			args = []string{"a"}
 		}
-		for _, conc := range []string{"", "1", "2"} {
+		for _, conc := range []string{"", "1"} {
 			a := append([]string{}, args...)
 			if conc != "" {
 				a = append([]string{"--concurrency", conc}, a...)
@@ -243,6 +243,10 @@ func cliC07(scratch string, part *h.Partial) map[string]any {
 	add("fanout3-self", "  a:\n    deps: [a, a, a]\n")
 	add("cycle-behind-probe", "  a:\n    cmds:\n      - "+probe("x")+"\n      - task: b\n  b:\n    deps: [a]\n")
 	add("for-loop-self", "  a:\n    cmds:\n      - for: [1, 2]\n        task: a\n")
+	add("once-mutual-deps", "  a:\n    run: once\n    deps: [b]\n  b:\n    run: once\n    deps: [a]\n")
+	add("once-mutual-calls", "  a:\n    run: once\n    cmds:\n      - task: b\n  b:\n    run: once\n    cmds:\n      - task: a\n")
+	add("once-three-cycle", "  a:\n    deps: [x]\n  x:\n    run: once\n    deps: [y]\n  y:\n    run: when_changed\n    cmds:\n      - task: z\n  z:\n    run: once\n    deps: [x]\n")
+	add("once-cross-wait", "  a:\n    deps: [x, y]\n  x:\n    run: once\n    deps: [y]\n  y:\n    run: once\n    deps: [x]\n")
 	add("once-self-dep", "  a:\n    deps: [b]\n  b:\n    run: once\n    deps: [b]\n")
 	add("wildcard-cycle", "  a:\n    deps: ['w-1']\n  'w-*':\n    deps: ['w-{{index .MATCH 0}}']\n")
 	return runCliCases("C07", scratch, bin, cases, part)
